@@ -137,7 +137,7 @@ func genC17s(rng *rand.Rand, tier string, w *bufio.Writer) {
 			go func() { wwg.Wait(); close(done) }()
 			select {
 			case <-done:
-			case <-time.After(2 * time.Second):
+			case <-time.After(HxScale(15 * time.Second)):
 				hung = true
 			}
 		}
@@ -151,5 +151,8 @@ func genC17s(rng *rand.Rand, tier string, w *bufio.Writer) {
 			fmt.Fprintln(w, "hang")
 		}
 		mu.Unlock()
+		if hung {
+			return // one hang is the verdict: do not spend the window again in every later round
+		}
 	}
 }
